@@ -22,6 +22,7 @@ func plans() []nrun.Plan {
 			out = append(out, p)
 		}
 	}
+	out = append(out, apiPlans()...) // API-surface scenarios first: cheap and dense in concurrent calls
 	add(pscen.Plans(), 1, 2)
 	add(extraPlans(), 0, 1)
 	// generated families (configurations x scripts x gates), bursts of the default schedule
